@@ -94,6 +94,9 @@ func genSegs(t *rapid.T, label string, min, max int) []string {
 
 func TestC20(t *testing.T) {
 	rec := ev.For("C20")
+	rec.Describe("four generated searches against an independent reference fold t' = sha256hex(t + sha256hex(segment)) starting from the empty string: (fold) lists of 1-8 path segments (empty, 1-3 letters from a tiny alphabet, arbitrary unicode, raw non-UTF-8 bytes, '.', '..', blanks, percent and backslash sequences, segments that look like the digest of an earlier segment or prefix, concatenations of two earlier segments, names of 100-3000 characters; one list in a hundred nested 15..257 deep) rendered with and without a trailing slash: MerklePath(path) == reference fold, MerklePath(path + '/') == MerklePath(path) wherever the last segment is not empty, AddToMerkle(MerklePath(parent), sha256hex(child)) == MerklePath(parent/child); (splitter) paths of 2-7 non-empty names in which names repeat along the path: the repository's path splitter MerkleHelper must return (address of the parent path, sha256hex(last name)), so that a post carrying them lands at the plain path's address; (distinct) pairs of segment lists related by splitting a segment, joining neighbours, appending an empty segment, replacing a prefix by its own digest, swapping segments, or drawn independently: different lists never share an address; (post) on a fork of a real app the owner provisions its tree and posts 1-5 nested entries, each parent rendered with or without its trailing slash, verbatim and modified re-posts included: the address PostFile returns equals the reference fold and MerklePath of the plain path, and the entry is stored there under the folder's account. Non-trivial = (fold) a list of >= 2 segments, (splitter) a name repeated along the path, (distinct) the two lists differ, (post) a path of >= 3 segments; distinct = distinct segment lists / pairs.",
+		"paths are split at '/' only; a segment may be empty (\"a//b\" has the segments a, '', b) - this is what MerklePath does and what the reference fold follows",
+		"the splitter clause leaves out paths with empty names: there MerkleHelper trims the parent once more than MerklePath does, which concerns clients only")
 
 	// ---- plain regression replays (no library): fixed hand-picked lists ----
 	fixed := [][]string{{"s"}, {"s", "home"}, {""}, {"", ""}, {"a", ""}, {"ab"}, {"a", "b"}, {"s", "home", "movies", "x.mp4"},
@@ -131,6 +134,47 @@ func TestC20(t *testing.T) {
 	})
 
 	// ---- clause 4: distinct lists give distinct addresses ----
+	// ---- the repository's path splitter (the one its tests, its simulation and - in the same form - its command line use
+	// to turn a plain path into the two hashes a post carries): for paths of non-empty names, some of them repeated along
+	// the path, posting with its output must land at the address computed from the plain path.  Paths with empty names are
+	// left out: there the splitter trims the parent once more than MerklePath does, which only concerns clients.
+	search(t, rec, "splitter", budget(20000, 1000000), 0, func(rt *rapid.T) {
+		n := rapid.IntRange(2, 7).Draw(rt, "n")
+		var segs []string
+		for i := 0; i < n; i++ {
+			if len(segs) > 0 && rapid.IntRange(0, 2).Draw(rt, "repeat") == 0 { // a folder or file named like one of its ancestors
+				segs = append(segs, segs[rapid.IntRange(0, len(segs)-1).Draw(rt, "ancestor")])
+				continue
+			}
+			sg := genSegment(rt, fmt.Sprintf("seg%d", i), segs)
+			if sg == "" {
+				sg = "x"
+			}
+			segs = append(segs, sg)
+		}
+		path := strings.Join(segs, "/")
+		if rapid.Bool().Draw(rt, "trailingSlash") {
+			path += "/"
+		}
+		parent, child := fttypes.MerkleHelper(path)
+		if want := refPath(segs[:n-1]); parent != want {
+			failf(rt, rec, "C20/splitter-parent", segs, "MerkleHelper(%q) gives parent %s, the address of %q is %s", path, parent, strings.Join(segs[:n-1], "/"), want)
+		}
+		if child != hexsha(segs[n-1]) {
+			failf(rt, rec, "C20/splitter-child", segs, "MerkleHelper(%q) gives child hash %s, sha256(%q) is %s", path, child, segs[n-1], hexsha(segs[n-1]))
+		}
+		if got := fttypes.AddToMerkle(parent, child); got != refPath(segs) {
+			failf(rt, rec, "C20/splitter-address", segs, "posting %q with the splitter's hashes lands at %s, the plain path's address is %s", path, got, refPath(segs))
+		}
+		repeated := false
+		for i := range segs {
+			for j := 0; j < i; j++ {
+				repeated = repeated || segs[i] == segs[j]
+			}
+		}
+		rec.Case(repeated, ev.Hash(append([]string{"splitter"}, segs...)...), func() interface{} { return segs })
+	})
+
 	search(t, rec, "distinct", budget(20000, 1000000), 0, func(rt *rapid.T) {
 		a := genSegs(rt, "a", 1, 5)
 		var b []string
